@@ -25,10 +25,12 @@ import itertools
 import json
 import multiprocessing
 import os
+import re
+import subprocess
 import sys
 import time
 
-from common import Check, CoqError, VERIF, coq_bytes, mkdata
+from common import BUILD, COQ, Check, CoqError, VERIF, coq_bytes, mkdata, parse_coq_value
 import bpdrive
 
 SIG_SAMEOFF = ('C06 / recv_bundle identity of a fragment omits its payload length: a fragment with the same offset and total '
@@ -134,6 +136,9 @@ def run_impl(case):
         else:
             code = 1
         table = table_now()
+        # the driver keeps every container / event of its lifetime: not needed here, and a long history would hoard them
+        for keep in (drv.recv_calls, drv.events, drv.deliveries, drv.transmitted, drv.send_attempts):
+            del keep[:]
         out.append(dict(code=code, no_seen=seen_before is None, exc=[obs['decode_error'], obs['recv_exc'], obs['escaped']] if code == 90 else None,
                         delivered=[dict(item, id=[srcnum.get(item['src'], -1), item['time'], item['seq']]) for item in delivered],
                         table=table))
@@ -467,6 +472,48 @@ def gen_cases(chk):
     return cases
 
 
+def make_long(count, seed, mids=6):
+    """ One long history for ONE agent: a first fragmented bundle (3 fragments) is delivered, then `count` other
+    two-fragment bundles (neighbours interleaved), then every fragment of the first bundle and of `mids` bundles spread
+    over the history (the earliest ones included) is sent again.  Deterministic from (count, seed). """
+    import random
+    rng = random.Random(seed)
+    defs = [((1, 900, 0), payload_of(seed, 12), split_uneven(rng, 12, 3))]
+    for idx in range(1, count + 1):
+        length = 6 + idx % 5
+        defs.append(((1 + idx % 3, 2000 + idx // 64, idx), payload_of(seed + idx, length), split_uneven(rng, length, 2)))
+    bundles = []
+    frags = []
+    per = []
+    for (bidx, (ident, pay, pieces)) in enumerate(defs):
+        bundles.append(dict(id=list(ident), payload=pay.hex()))
+        mine = []
+        for (off, size) in pieces:
+            frags.append(dict(b=bidx, off=off, data=pay[off:off + size].hex(), total=len(pay),
+                              blocks=[[192, 2, bytes([bidx % 251, 1 if off == 0 else 0]).hex()]]))
+            mine.append(len(frags) - 1)
+        per.append(mine)
+    first = list(per[0])
+    rng.shuffle(first)
+    hist = list(first)
+    idx = 1
+    while idx <= count:
+        group = [list(per[idx])]
+        if idx + 1 <= count and rng.random() < 0.5:
+            group.append(list(per[idx + 1]))
+        for lst in group:
+            rng.shuffle(lst)
+        hist.extend(interleave(rng, group))
+        idx += len(group)
+    again = [0] + sorted(set([1, 2] + [1 + (count - 1) * step // max(1, mids - 2) for step in range(mids - 1)]))
+    for bidx in again:
+        if bidx <= count:
+            resend = list(per[bidx])
+            rng.shuffle(resend)
+            hist.extend(resend)
+    return dict(kind='long', long_spec=dict(count=count, seed=seed, mids=mids), bundles=bundles, frags=frags, hist=hist)
+
+
 def gen_malformed(chk):
     ''' Inconsistent fragments: correspondence only (outside the property's quantifier). '''
     rng = chk.rng
@@ -517,14 +564,76 @@ def nontrivial(case):
     return len(per) > 1 or len(set(hist)) < len(hist) or offs != sorted(offs)
 
 
+class LongRun(object):
+    ''' The long histories run beside the other suites: the real agent in a forked worker, the model in a coqc process
+    started here (same file format as Check.coq_eval); results are collected and judged at the end. '''
+
+    def __init__(self, chk, cases_with_model, cases_oracle_only):
+        self.chk = chk
+        self.started = time.time()
+        self.cases = list(cases_with_model) + list(cases_oracle_only)
+        self.with_model = len(cases_with_model)
+        bpdrive.BpDriver(node_id=NODE, rx_routes=[], tx_routes=[], capture_order=None)   # imports, before forking
+        self.pool = multiprocessing.get_context('fork').Pool(max(1, len(self.cases)))
+        self.impl = [self.pool.apply_async(_impl_worker, (case,)) for case in self.cases]
+        self.procs = []
+        shard_dir = os.path.join(BUILD, 'cases')
+        os.makedirs(shard_dir, exist_ok=True)
+        for (idx, case) in enumerate(cases_with_model):
+            path = os.path.join(shard_dir, 'cases_C06_long_%d.v' % idx)
+            with open(path, 'w') as out:
+                out.write('From Coq Require Import List NArith.\nImport ListNotations.\n'
+                          'From DTN Require Import Lib.Bytes Lib.Ivl Model.BpReasm.\n'
+                          'Set Printing Depth 100000000.\nSet Printing Width 2000.\nLocal Open Scope N_scope.\n')
+                out.write('Definition c0 := %s.\nEval vm_compute in ((BpReasm.run_render BpReasm.init) c0).\n' % coq_case(case))
+            outfile = open(path + '.out', 'w')
+            cmd = ['timeout', '3000', 'coqc', '-Q', COQ, 'DTN', path]
+            chk.checker_cmds.append('coqc -Q coq DTN build/cases/cases_C06_long_%d.v  (1 history of %d fragments, Eval vm_compute)' % (idx, len(case['hist'])))
+            self.procs.append((subprocess.Popen(cmd, cwd=shard_dir, stdout=outfile, stderr=subprocess.STDOUT), outfile, path))
+
+    def impl_only(self):
+        impl = [item.get() for item in self.impl]
+        self.pool.close()
+        for (proc, outfile, _path) in self.procs:
+            proc.kill()
+            outfile.close()
+        return impl
+
+    def collect(self):
+        ''' -> (impl observations, model results or None per case) '''
+        impl = [item.get() for item in self.impl]
+        self.pool.close()
+        PHASES.append(('impl:long (beside the other suites)', round(time.time() - self.started, 1)))
+        model = []
+        for (proc, outfile, path) in self.procs:
+            ret = proc.wait()
+            outfile.close()
+            with open(path + '.out') as infile:
+                text = infile.read()
+            if ret != 0:
+                raise CoqError('model evaluation failed for %s: %s' % (os.path.basename(path), Check._first_error(text)))
+            parts = re.split(r'^\s*= ', text, flags=re.M)[1:]
+            if len(parts) != 1:
+                raise CoqError('expected 1 result, got %d in %s' % (len(parts), path))
+            model.append(parse_coq_value(parts[0]))
+            for ext in ('.v', '.v.out', '.vo', '.glob', '.vok', '.vos'):
+                try:
+                    os.unlink(path[:-2] + ext)
+                except OSError:
+                    pass
+            try:
+                os.unlink(os.path.join(os.path.dirname(path), '.' + os.path.basename(path)[:-2] + '.aux'))
+            except OSError:
+                pass
+        PHASES.append(('model:long (beside the other suites)', round(time.time() - self.started, 1)))
+        return (impl, model + [None] * (len(self.cases) - self.with_model))
+
+
 def evaluate(chk, cases, name, with_oracle=True, with_model=True):
     ''' Implementation, model and oracle on a list of cases. -> list of disagreement descriptions '''
     started = time.time()
     impl = run_impl_many(cases)
     PHASES.append(('impl:' + name, round(time.time() - started, 1)))
-    crashed = [(case, obs) for (case, obs) in zip(cases, impl) if isinstance(obs, dict)]
-    if crashed:
-        raise RuntimeError('driver failure: %s on %s' % (crashed[0][1]['harness_error'], json.dumps(crashed[0][0])[:400]))
     model = None
     if with_model:
         started = time.time()
@@ -532,35 +641,51 @@ def evaluate(chk, cases, name, with_oracle=True, with_model=True):
                              '(BpReasm.run_render BpReasm.init)', chunk=min(400, max(40, -(-len(cases) // 16))),
                              timeout=900 if chk.quick() else 3000)
         PHASES.append(('model:' + name, round(time.time() - started, 1)))
+    return judge(chk, cases, impl, model, with_oracle)
+
+
+def judge(chk, cases, impl, model, with_oracle=True):
+    ''' Compare implementation and model (model None, or None per case = not evaluated) and run the oracle. '''
+    crashed = [(case, obs) for (case, obs) in zip(cases, impl) if isinstance(obs, dict)]
+    if crashed:
+        raise RuntimeError('driver failure: %s on %s' % (crashed[0][1]['harness_error'], json.dumps(crashed[0][0])[:400]))
     diffs = []
     for (pos, (case, obs)) in enumerate(zip(cases, impl)):
-        chk.case(ident=json.dumps(case, sort_keys=True), nontrivial=nontrivial(case),
+        if 'long_spec' in case:
+            chk.case(ident=('long', json.dumps(case['long_spec'], sort_keys=True)), nontrivial=True,
+                     sample=dict(kind='long', long_spec=case['long_spec'], bundles=len(case['bundles']), fragments_received=len(case['hist']),
+                                 deliveries=sum(len(step['delivered']) for step in obs),
+                                 ignored_as_seen=sum(1 for step in obs if step['code'] == 0)))
+            chk.count('long_history_fragments', len(case['hist']))
+        else:
+            chk.case(ident=json.dumps(case, sort_keys=True), nontrivial=nontrivial(case),
                  sample=dict(kind=case['kind'], bundles=case['bundles'],
                              arrival=[[case['frags'][f]['b'], case['frags'][f]['off'], len(case['frags'][f]['data']) // 2] for f in case['hist']],
                              delivered=[[step['code'], [d['id'] for d in step['delivered']]] for step in obs]) if (pos % 211 == 5 and nontrivial(case)) else None)
         chk.count('kind', case['kind'])
+        replay_obj = dict(long_spec=case['long_spec']) if 'long_spec' in case else case
         chk.count('history_length', len(case['hist']) if len(case['hist']) < 12 else '>=12')
         chk.count('bundles_interleaved', len(set(case['frags'][f]['b'] for f in case['hist'])))
         for step in obs:
             chk.count('outcome', {0: 'ignored-seen', 1: 'absorbed', 2: 'delivered', 3: 'complete-but-whole-seen', 4: 'error', 90: 'exception'}[step['code']])
         want = got = None
-        if model is not None:
+        if model is not None and model[pos] is not None:
             (want, degraded) = degrade(obs, canon_model(model[pos]))
             got = canon_impl(obs)
             if degraded:
                 got = [dict(step, table=None) if any(item['table'] is None for item in obs) else step for step in got]
                 chk.count('private_state_unreadable', 'yes')
-        if model is not None and got != want:
+        if want is not None and got != want:
             first = next((idx for idx in range(min(len(want), len(got))) if want[idx] != got[idx]), min(len(want), len(got)))
             diffs.append('case %d (%s) step %d: implementation %s / model %s' % (
                 pos, case['kind'], first, json.dumps(got[first] if first < len(got) else None)[:500],
                 json.dumps(want[first] if first < len(want) else None)[:500]))
             if len(diffs) <= 3:
                 with open(os.path.join(VERIF, 'build', 'replay', 'C06_disagree_%d.json' % len(diffs)), 'w') as out:
-                    json.dump(dict(property='C06', what=diffs[-1], replay=case), out, indent=1)
+                    json.dump(dict(property='C06', what=diffs[-1], replay=replay_obj), out, indent=1)
         if with_oracle and all(consistent(case, fidx) for fidx in case['hist']):
             for (sig, what) in oracle(case, obs):
-                chk.fail(sig, what, case)
+                chk.fail(sig, what, replay_obj)
     return diffs
 
 
@@ -577,6 +702,8 @@ def replay(chk, path):
     with open(path) as infile:
         ent = json.load(infile)
     case = ent.get('replay', ent.get('case', ent))
+    if isinstance(case, dict) and 'long_spec' in case and 'hist' not in case:
+        case = make_long(**case['long_spec'])
     if not isinstance(case, dict) or 'hist' not in case:
         print('replay file names no input (broken obligation): %s' % json.dumps(ent)[:800])
         chk.obligation('replay', True, '')
@@ -586,8 +713,12 @@ def replay(chk, path):
     obs = _impl_worker(case)
     if isinstance(obs, dict):
         raise RuntimeError(obs['harness_error'])
-    for (fidx, step) in zip(case['hist'], obs):
+    for (pos, (fidx, step)) in enumerate(zip(case['hist'], obs)):
         frag = case['frags'][fidx]
+        if len(obs) > 60 and 20 <= pos < len(obs) - 30:
+            if pos == 20:
+                print('  ... (%d steps not shown)' % (len(obs) - 50))
+            continue
         print('  fragment bundle=%r off=%d len=%d total=%d -> code %d, delivered %s, table %s' % (
             case['bundles'][frag['b']]['id'], frag['off'], len(frag['data']) // 2, frag['total'], step['code'],
             [(d['id'], d['payload'][:40]) for d in step['delivered']], [(e[0], e[1], e[2]) for e in (step['table'] or [])]))
@@ -613,7 +744,10 @@ def main():
     chk.coq_props()
     PHASES.append(('coq_props', round(time.time() - started, 1)))
     diffs = {}
+    long_run = None
     try:
+        long_run = LongRun(chk, [make_long(1500, chk.seed % 100000)],
+                           [] if chk.quick() else [make_long(20000, chk.seed % 100000 + 1)])
         # corpus first (witnesses of findings)
         corpus = load_corpus()
         if corpus:
@@ -624,6 +758,11 @@ def main():
         diffs['histories'] = evaluate(chk, cases, 'hist')
         bad = gen_malformed(chk)
         diffs['inconsistent'] = evaluate(chk, bad, 'bad', with_oracle=False)
+        # LONG history on one agent (the seen-identity set and the table live as long as the agent does): model and
+        # oracle on 1500 bundles; thorough additionally 20000 bundles through the real agent and the oracle only
+        # (the model's seen set is a list: evaluation is quadratic in the history length)
+        (long_impl, long_model) = long_run.collect()
+        diffs['long'] = judge(chk, long_run.cases, long_impl, long_model)
         for (suite, lst) in diffs.items():
             chk.obligation('correspondence:' + suite, not lst, '; '.join(lst[:3]))
         if any(diffs.values()) and not chk.violations:
@@ -635,6 +774,8 @@ def main():
     except CoqError as err:
         print('model evaluation failed: %s' % str(err)[:1500])
         chk.obligation('correspondence:model-evaluation', False, str(err)[:600])
+        if long_run is not None:
+            judge(chk, long_run.cases, long_run.impl_only(), None)
         if not chk.violations:
             chk.tier = 'thorough'
             more = gen_cases(chk)
@@ -658,7 +799,10 @@ def main():
               '(C) random histories of up to 4 bundles x up to 10 fragments with overlaps, empty fragments, duplicates, late '
               'fragments after completion and truncated (incomplete) histories; (D) two different fragmentations of the same '
               'bundle mixed (same offset, different lengths); (E) inconsistent fragments (wrong totals, zero totals, data past '
-              'the end: correspondence only, outside the quantifier). Non-trivial: at least two distinct fragments of one '
+              'the end: correspondence only, outside the quantifier); (F) one LONG history on a single agent: a 3-fragment bundle '
+              'delivered, then 1500 (thorough: also 20000, oracle only) other two-fragment bundles with neighbours interleaved, then '
+              'all fragments of the first bundle and of 6 bundles spread over the history sent again; every bundle must be '
+              'delivered exactly once over the whole history. Non-trivial: at least two distinct fragments of one '
               'bundle arrive and the history is out of offset order, repeats a fragment or mixes identities. Distinct by the '
               'whole case (bundles, fragments, arrival order).'),
         extra_cov=dict(
@@ -673,6 +817,9 @@ def main():
                    'application step is therefore placed first among the order-30 steps']),
         assumptions=['harness stubs for dbus, gi.repository.GLib and portion (closed-open integer interval sets, same normal form '
                      'as Lib/Ivl.v) are trusted to behave as the real libraries',
+                     'the Coq theorems quantify over every finite history for a model whose seen-identity set is an unbounded list; that the '
+                     'implementation keeps its set for the whole life of the agent is exercised, not proved: by the long-history suite '
+                     '(about 4500 identities in quick, 60000 in thorough)',
                      'fragments are received one at a time and the idle source re-injecting the reassembled bundle runs before the '
                      'next fragment (the harness drains idle sources after each recv_bundle)',
                      'all fragments carry valid CRCs, a foreign source and a destination that the RX route table delivers locally; '
